@@ -16,8 +16,13 @@ Theorem C11_bounded : forall ts, exit_time lad ts <= 15.
 Proof. intro ts. pose proof (ladder_bounded lad ts). pose proof (proj1 (proj2 (proj2 (proj2 C11_cfg_ok)))). Lia.lia. Qed.
 Print Assumptions C11_bounded.
 
-(* ... and after t1 (= 5 s) unless the main thread runs a body that swallows the interrupt *)
-Theorem C11_sigint_suffices : forall ts, (forall m, main_task ts = Some m -> on_int m = Unwinds \/ leb_o (ends m) (t1 lad) = true) -> exit_time lad ts <= 5.
+(* ... and after t1 (= 5 s) when SIGINT finds the main thread idle, or inside a body that unwinds while no task of another
+   thread is still running (Reply.run swallows the KeyboardInterrupt, serve() then joins the receiver thread, and that one waits
+   for the other threads' tasks until t1 + t2) *)
+Theorem C11_sigint_suffices : forall ts,
+  (forall m, main_task ts = Some m -> leb_o (ends m) (t1 lad) = true \/
+        (on_int m = Unwinds /\ exists x, others_done ts = Some x /\ x <= t1 lad)) ->
+  exit_time lad ts <= 5.
 Proof. exact (ladder_sigint_suffices lad). Qed.
 Print Assumptions C11_sigint_suffices.
 
@@ -27,5 +32,7 @@ Example C11_witness :
   exit_time lad [{| ends := None; in_main := false; on_int := Swallows |}] = 5 /\
   exit_time lad [{| ends := None; in_main := true; on_int := Unwinds |}] = 5 /\
   exit_time lad [{| ends := None; in_main := true; on_int := Swallows |}] = 15 /\
-  exit_time lad [{| ends := Some 9; in_main := true; on_int := Swallows |}] = 9.
+  exit_time lad [{| ends := Some 9; in_main := true; on_int := Swallows |}] = 9 /\
+  exit_time lad [{| ends := None; in_main := true; on_int := Unwinds |}; {| ends := Some 12; in_main := false; on_int := Unwinds |}] = 12 /\
+  exit_time lad [{| ends := None; in_main := true; on_int := Unwinds |}; {| ends := None; in_main := false; on_int := Unwinds |}] = 15.
 Proof. vm_compute. repeat split. Qed.
